@@ -842,7 +842,7 @@ theorem decodeRepeat_length (dec : Nat → Nat → Outcome (Nat × CV)) :
         subst h2
         simp [ih hs (hp + r0) rs cs' hrest]
 
-theorem slice?_length {xs : Bytes} {lo hi : Nat} {w : Bytes} (h : slice? xs lo hi = .ok w) : w.length = hi - lo := by
+theorem slice_length {xs : Bytes} {lo hi : Nat} {w : Bytes} (h : slice? xs lo hi = .ok w) : w.length = hi - lo := by
   unfold slice? at h
   split at h
   · rename_i hc
@@ -882,7 +882,7 @@ theorem decodeElem_shape (info : ElemInfo) (m : Nat) (block : Bytes) (hs hp : Na
       cases hsl : slice? block (hp + (32 - m / 8)) (hp + 32) with
       | ok w =>
         rw [hsl] at h; simp only [Outcome.bind] at h; injection h with h
-        have hwl := slice?_length hsl
+        have hwl := slice_length hsl
         have hlt := fromBE_lt w
         refine ⟨_, h.symm, Int.natCast_nonneg _, ?_⟩
         have hle : w.length ≤ m / 8 := by omega
@@ -899,7 +899,7 @@ theorem decodeElem_shape (info : ElemInfo) (m : Nat) (block : Bytes) (hs hp : Na
     · cases hsl : slice? block hp (hp + 32) with
       | ok w =>
         rw [hsl] at h; simp only [Outcome.bind] at h; injection h with h
-        have hwl := slice?_length hsl
+        have hwl := slice_length hsl
         have := parseInt256_range w (by omega)
         exact ⟨_, h.symm, this.1, this.2⟩
       | err => rw [hsl] at h; cases h
